@@ -13,6 +13,7 @@ class SrcInfo:
         self.files = {}
         self.structs = {}   # name -> [field names]
         self.enums = {}     # name -> [variant names]
+        self.field_types = {}   # struct name -> {field: type text}
         srcdir = os.path.join(repo, 'src')
         for fn in sorted(os.listdir(srcdir)):
             if fn.endswith('.rs'):
@@ -42,6 +43,7 @@ class SrcInfo:
             if m and '{' in l and not l.strip().startswith('//'):
                 name = m.group(1)
                 fields = []
+                ftypes = {}
                 i += 1
                 depth = 1
                 while i < n and depth > 0:
@@ -51,9 +53,11 @@ class SrcInfo:
                         fm = re.match(r'^(?:pub(?:\([a-z]+\))?\s+)?(\w+)\s*:', st)
                         if fm and not st.startswith('//') and not st.startswith('#'):
                             fields.append(fm.group(1))
+                            ftypes[fm.group(1)] = st[fm.end():].split('//')[0].strip().rstrip(',').strip()
                     depth += s.count('{') - s.count('}')
                     i += 1
                 self.structs.setdefault(name, fields)
+                self.field_types.setdefault(name, ftypes)
                 continue
             m = _enum_re.match(l)
             if m and '{' in l and not l.strip().startswith('//'):
